@@ -214,10 +214,14 @@ def gabor_norm(ctx, R="R-C05-gabor-norm"):
         else:
             log_ct = S.sub(S.neg(S.mul(half, S.add(l2, lpi))), S.call("log", SG))
         log_cf = S.add(log_ct, S.add(S.call("log", SG), S.mul(half, S.add(l2, lpi))))
-        for meth in fc.RESPONSE_METHODS:
+        for meth, halfv in [(m_, None) for m_ in fc.RESPONSE_METHODS] + [("get_frequency_response", True), ("get_frequency_response", False)]:
             f = prog.own_method(c, meth)
-            ev = SymEval(prog, f, seed={"self._scale_l2_norm": l2n}, inline_props=False).run()
-            augs = [n for n in f.body_nodes() if isinstance(n, ast.AugAssign) and isinstance(n.target, ast.Subscript) and ev.reached(n)]
+            seed_ = {"self._scale_l2_norm": l2n}
+            if halfv is not None:
+                seed_["half"] = halfv
+            ev = SymEval(prog, f, seed=seed_, inline_props=False).run()
+            augs = [n for n in f.body_nodes() if isinstance(n, ast.AugAssign) and isinstance(n.op, ast.Add) and isinstance(n.target, (ast.Subscript, ast.Name))
+                    and ev.reached(n)]
             ctx.need(augs, R, "no accumulation into the result in GaborFilterBank.%s" % meth)
             fi = S.sym(f.params[1])
             for a in augs:
@@ -237,8 +241,20 @@ def gabor_norm(ctx, R="R-C05-gabor-norm"):
                 v2 = S.subst(v2, {sig: SG})
                 v2 = S.subst(v2, {xi: XI})
                 v2 = S.subst(v2, {S.const("1j"): J})
-                ctx.need(v2.op == "call" and v2.args[0] == "exp", R, "Gabor sample in %s is not an exponential: %s" % (meth, S.show(v2)[:100]))
-                got = v2.args[1]
+                # element-wise selections of a vectorised value do not change the formula; index generators become the index symbol
+                while cc.is_call(v2, "getitem") and cc.is_call(v2.args[2], "slice") and v2.args[2].args[1] in (S.NONE, S.ZERO) and v2.args[2].args[3] == S.NONE:
+                    v2 = v2.args[1]
+                gen = {}
+                for x in S.walk(v2):
+                    if cc.is_call(x, "np.arange") and len(x.args) == 2:
+                        gen[x] = S.sym("t" if meth == "get_impulse_response" else "idx")
+                    elif cc.is_call(x, "np.linspace") and len(x.args) >= 4:
+                        a_, b_, n_ = x.args[1], x.args[2], x.args[3]
+                        closed = [k for k in x.args[4:] if cc.is_call(k, "kw:endpoint")]
+                        den = n_ if (closed and closed[0].args[1] == S.FALSE) else S.sub(n_, S.ONE)
+                        gen[x] = S.add(a_, S.truediv(S.mul(S.sub(b_, a_), S.sym("idx")), den))
+                v2 = S.subst(v2, gen) if gen else v2
+                got = S.call("log", v2)
                 if meth == "get_impulse_response":
                     t = S.sym("t")
                     want = S.add(S.add(S.neg(S.truediv(S.power(t, S.lift(2)), S.mul(S.lift(2), S.power(SG, S.lift(2))))), log_ct), S.mul(S.mul(J, XI), t))
@@ -247,7 +263,7 @@ def gabor_norm(ctx, R="R-C05-gabor-norm"):
                 else:
                     om = S.mul(S.mul(S.add(S.truediv(S.sym("idx"), S.sym(f.params[2])), S.sym("period")), S.lift(2)), S.PI)
                     want = S.add(S.mul(S.neg(S.truediv(S.power(SG, S.lift(2)), S.lift(2))), S.power(S.sub(XI, om), S.lift(2))), log_cf)
-                    dom = {"idx": [Fraction(0), Fraction(3)], f.params[2]: [Fraction(16)], "period": [Fraction(0), Fraction(-1)], "SIGMA": [Fraction(2), Fraction(5, 3)], "XI": [Fraction(1, 2)]}
+                    dom = {"idx": [Fraction(0), Fraction(3)], f.params[2]: [Fraction(16), Fraction(15)], "period": [Fraction(0), Fraction(-1)], "SIGMA": [Fraction(2), Fraction(5, 3)], "XI": [Fraction(1, 2)]}
                     what = "exp(-sigma^2 (xi - w)^2 / 2) times C sigma sqrt(2 pi): %s" % ("log = 1/2 log 2 sigma + 1/4 log pi" if l2n else "1 (unit peak gain)")
                 r = S.compare(got, want, domain=dom, expand_logs=True)
                 n_ok += 1
@@ -259,7 +275,7 @@ def gabor_norm(ctx, R="R-C05-gabor-norm"):
                                r.get("witness"), r["values"][0], r["values"][1]), "Gabor normalisation")
                 else:
                     raise AnalysisError("%s: %s (scale_l2_norm=%s): %s" % (R, meth, l2n, r.get("reason")))
-    ctx.floor(R, n_ok, 6)
+    ctx.floor(R, n_ok, 10)
 
 
 def triangle(ctx, R="R-C05-triangle"):
